@@ -206,6 +206,9 @@ pub fn replay_random(case: &Value, rep: &mut Report) {
             let id = format!("random:tensor:{:?}", dims);
             rep.nontrivial(id.clone());
             let shape = shape_from(&case["shape"]);
+            // a request the library refuses (a shape it has no random initialiser for) must leave nothing behind: the
+            // valid requests that follow are served as if it had never been made
+            let _ = guarded(|| Tensor::random(neurons::tensor::Shape::Quintuple(1, 1, 1, 1, 1), 0.0, 1.0));
             for (lo, hi) in [(-1.0f32, 1.0f32), (-7.7, -0.1), (0.25, 0.25)] {
                 rep.checks += 1;
                 match guarded(|| Tensor::random(shape.clone(), lo, hi)) {
